@@ -155,8 +155,27 @@ func runBIP66(b []byte) string {
 	if !bytes.Equal(in, b) {
 		return "input modified"
 	}
+	// the verifier entry point that applies this grammar never panics on the same bytes, and accepts nothing the
+	// grammar rejects (it may reject more: the signature must also verify)
+	var v bool
+	if pn := lib.Try(func() { v = bitcoin.VerifyASN1(bip66Key, bip66Digest, in) }); pn != "" {
+		return fmt.Sprintf("bitcoin.VerifyASN1 panics on a %d-byte input: %s", len(b), pn)
+	}
+	if v && !want {
+		return "bitcoin.VerifyASN1 accepts a string the BIP-66 grammar rejects"
+	}
+	if len(b) == 0 {
+		if pn := lib.Try(func() { v = bitcoin.VerifyASN1(bip66Key, bip66Digest, nil) }); pn != "" || v {
+			return "bitcoin.VerifyASN1(nil signature): panic / accepted: " + pn
+		}
+	}
 	return ""
 }
+
+var (
+	bip66Key    = lib.MkPub(ref.G().Mul(big.NewInt(0xc12)))
+	bip66Digest = ref.TaggedHash("verif/C12", []byte("bip66 digest"))
+)
 
 func runSPKI(b []byte) string {
 	in := append([]byte{}, b...)
